@@ -54,7 +54,7 @@ def encode_event(e, d="out"):
     if k in FAULT_EVENTS:
         return {"e": k}
     if k == "end":
-        return {"e": k}
+        return {"e": k, "full": bool(e.get("full", True))}
     return None
 
 
